@@ -33,14 +33,25 @@ def check(case):
     if case.get("prelude"):
         held = objectio.read_pil(case["prelude"])
         snapshot = sorted((k, n, id(o)) for k in ("domains", "strands", "complexes", "macrostates") for n, o in held[k].items())
+    import signal
+    class _Stuck(BaseException):
+        pass
+    def _alarm(sig, frm):
+        raise _Stuck()
+    signal.signal(signal.SIGALRM, _alarm)
+    signal.alarm(60)                      # a read that does not come back is an undeclared outcome too
     try:
         out = objectio.read_pil(text)
     except ALLOWED:
         out = None
     except RecursionError:
         return None
+    except _Stuck:
+        return "read_pil did not return within 60 s"
     except BaseException as e:
         return f"read_pil raised {type(e).__name__}: {e}"
+    finally:
+        signal.alarm(0)
     if out is not None and case.get("expect_reactions") is not None:
         n = len(out["det_reactions"]) + len(out["con_reactions"])
         if n != case["expect_reactions"]:
